@@ -129,7 +129,11 @@ func TestGocvReplay(t *testing.T) {
 	_ = store
 `)
 		for j, s := range h.Stores {
-			fmt.Fprintf(&sb, "\tstore(0x%x, %s, %d)\n", modelBig(o, fmt.Sprintf("st%d.addr", j)), leBytes(modelBig(o, fmt.Sprintf("st%d.val", j)), s[1]), s[0])
+			sa := modelBig(o, fmt.Sprintf("st%d.addr", j))
+			if j < len(h.StoreAt) && h.StoreAt[j] != 0 {
+				sa.SetUint64(h.StoreAt[j])
+			}
+			fmt.Fprintf(&sb, "\tstore(0x%x, %s, %d)\n", sa, leBytes(modelBig(o, fmt.Sprintf("st%d.val", j)), s[1]), s[0])
 		}
 		addr := modelBig(o, "in.addr")
 		switch op {
